@@ -254,7 +254,8 @@ A_STUBS = ('callee contracts used: Frame::write(port) writes exactly to_bytes_wi
 
 PROPS['C16'] = {
     'level': 'proof',
-    'kani': [{'package': 'flipdot-serial', 'harnesses': [H('c16_c18_classifiers', covers=5)] + SERIAL_EVENT}],
+    'kani': [{'package': 'flipdot-serial', 'harnesses': SERIAL_EVENT},
+             {'package': 'flipdot-serial', 'isolated': ['xpriv_serial_classifiers.rs'], 'harnesses': [H('c16_c18_classifiers', covers=5)]}],
     'functions': ['flipdot_serial::serial_sign_bus::{<SerialSignBus<P> as SignBus>::process_message, response_expected, delay_after_send, delay_after_receive} (Kani)',
                   'flipdot_core::message::{From<Message> for Frame, From<Frame> for Message} (executed symbolically by the same harnesses)'],
     'assumptions': [A_TOOLS, A_DEBUG, A_STUBS,
@@ -264,7 +265,8 @@ PROPS['C16'] = {
 
 PROPS['C18'] = {
     'level': 'proof',
-    'kani': [{'package': 'flipdot-serial', 'harnesses': [H('c16_c18_classifiers', covers=5)] + SERIAL_EVENT}],
+    'kani': [{'package': 'flipdot-serial', 'harnesses': SERIAL_EVENT},
+             {'package': 'flipdot-serial', 'isolated': ['xpriv_serial_classifiers.rs'], 'harnesses': [H('c16_c18_classifiers', covers=5)]}],
     'functions': PROPS['C16']['functions'],
     'assumptions': [A_TOOLS, A_DEBUG, A_STUBS,
                     'GHOST CLOCK: deductive tools cannot measure time. The clock is advanced only by thread::sleep, which is replaced by a stub that logs its argument; assumed: std::thread::sleep(d) blocks for at least d. Wall-clock scheduling is outside the model',
